@@ -36,20 +36,20 @@ def atom_fids(F):
 
 
 class BN:
-    """a value of a bnum ADT at a concrete width"""
-    __slots__ = ("adt", "v")
+    """a value of a bnum ADT at a concrete width (n = digit count when it differs from the world's N)"""
+    __slots__ = ("adt", "v", "n")
 
-    def __init__(self, adt, v):
-        self.adt, self.v = adt, v
+    def __init__(self, adt, v, n=None):
+        self.adt, self.v, self.n = adt, v, n
 
     def __eq__(self, o):
-        return isinstance(o, BN) and o.adt == self.adt and o.v == self.v
+        return isinstance(o, BN) and o.adt == self.adt and o.v == self.v and o.n == self.n
 
     def __hash__(self):
-        return hash((self.adt, self.v))
+        return hash((self.adt, self.v, self.n))
 
     def __repr__(self):
-        return "%s(%d)" % (self.adt, self.v)
+        return "%s%s(%d)" % (self.adt, "<%d>" % self.n if self.n else "", self.v)
 
 
 class PI:
@@ -70,19 +70,23 @@ class PI:
 
 
 class World:
-    def __init__(self, n, cparams=None):
+    def __init__(self, n, cparams=None, m=None):
         self.n = n
+        self.m = m
         self.cparams = cparams or {}
 
-    def bits(self, adt):
-        return self.n * DIGIT_BITS[DIGIT[adt]]
+    def bits(self, adt, n=None):
+        return (n or self.n) * DIGIT_BITS[DIGIT[adt]]
 
-    def wrap(self, adt, v):
-        w = self.bits(adt)
+    def bits_of(self, bn):
+        return (bn.n or self.n) * DIGIT_BITS[DIGIT[bn.adt]]
+
+    def wrap(self, adt, v, n=None):
+        w = self.bits(adt, n)
         v &= (1 << w) - 1
         if adt in SIGNED and v >> (w - 1):
             v -= 1 << w
-        return BN(adt, v)
+        return BN(adt, v, n if (n and n != self.n) else None)
 
     def const(self, adt, name):
         w = self.bits(adt)
@@ -265,6 +269,12 @@ def ev(t, env, W):
     if k == "AC":
         m = re.match(r"^(BUintD32|BUintD16|BUintD8|BUint|BIntD32|BIntD16|BIntD8|BInt)<N>::([A-Z_0-9]+)$", t[1])
         if m:
+            if t[2] == ("M",):
+                if W.m is None:
+                    return OPAQUE
+                if m.group(2) == "BITS":
+                    return PI("u32", W.bits(m.group(1), W.m))
+                return OPAQUE
             return W.const(m.group(1), m.group(2))
         if len(t[2]) == 1 and not t[1].startswith("B") and "::" in t[1] and not t[1].startswith("<"):
             return _trait_const(t[1], t[2][0], W)
@@ -272,13 +282,15 @@ def ev(t, env, W):
     if k == "CP":
         if t[1] == "N":
             return PI("usize", W.n)
+        if t[1] == "M" and W.m is not None:
+            return PI("usize", W.m)
         if t[1] in W.cparams:
             return W.cparams[t[1]]
         return OPAQUE
     if k == "F":
         b = ev(t[1], env, W)
         if isinstance(b, BN) and t[2] == "bits" and b.adt in SIGNED:
-            return W.wrap(TWIN[b.adt], b.v)
+            return W.wrap(TWIN[b.adt], b.v, b.n)
         if isinstance(b, tuple) and b and b[0] == "tuple" and isinstance(t[2], int):
             return b[1][t[2]]
         if isinstance(b, tuple) and b and b[0] == "struct":
@@ -612,6 +624,12 @@ def _prim_atom(name, label, t, env, W):
                 return ("Some", _wrap_prim(ty, x >> args[1].v if name == "checked_shr" else x << args[1].v))
             if name == "is_negative":
                 return x < 0
+            if name in ("saturating_sub", "saturating_add", "wrapping_sub", "wrapping_add") and len(args) == 2 and isinstance(args[1], PI):
+                r_ = x - args[1].v if name.endswith("sub") else x + args[1].v
+                if name.startswith("saturating"):
+                    lo_, hi_ = (-(1 << (b - 1)), (1 << (b - 1)) - 1) if ty.startswith("i") else (0, (1 << b) - 1)
+                    return PI(ty, min(max(r_, lo_), hi_))
+                return _wrap_prim(ty, r_)
             if name == "wrapping_shr" and len(args) == 2 and isinstance(args[1], PI):
                 return _wrap_prim(ty, x >> (args[1].v % b))
             if name == "wrapping_shl" and len(args) == 2 and isinstance(args[1], PI):
@@ -747,7 +765,9 @@ def _arith(name, label, args, W, generics=None):
             hi_ = (1 << (b - 1)) - 1 if ty.startswith("i") else (1 << b) - 1
             return ("Some", PI(ty, args[0].v)) if args[0].v <= hi_ else ("None",)
         return OPAQUE
-    w = W.bits(adt)
+    w = W.bits_of(args[0])
+    if args[0].n and name not in ("leading_zeros", "leading_ones", "bits", "trailing_zeros", "count_ones", "count_zeros"):
+        return OPAQUE          # values at the second width: only the counting atoms are modelled
     signed = adt in SIGNED
     lo, hi = (-(1 << (w - 1)), (1 << (w - 1)) - 1) if signed else (0, (1 << w) - 1)
     x = args[0].v
